@@ -235,7 +235,57 @@ theorem C44_partial (fs : List FileRec) (walk : List Nat) (w : Nat) (s : State)
       exact ⟨g, hg, by simp⟩
     exact C44_order (cfgOf fs walk w) ht s hr o g.stem hdeps hsrc pre post h
 
+/-- **C44, incremental builds** (`force=False`, the objects in `fresh` are up to date and get no task — the
+same situation as a used module without a source, e.g. `use mpi`): outside the stem-mismatch family, every
+object that is rebuilt starts only after all **rebuilt** objects providing the modules it uses have
+finished, wherever the task-less dependencies stand in its dependency list, for every order with the
+contract, every `w` and every run.  (`C44_partial` is the case `fresh = []`.) -/
+theorem C44_partial_incremental (fs : List FileRec) (fresh walk : List Nat) (w : Nat) (s : State)
+    (hk : KnownStemMismatch fs = false)
+    (ht : isTopo (cfgOfInc fs fresh walk w) = true) (hr : Reach (cfgOfInc fs fresh walk w) s)
+    (o d : Nat) (hd : d ∈ trueDepsInc fs fresh o) (pre post : List Ev)
+    (h : s.trace.reverse = pre ++ Ev.start o :: post) : Ev.fin d ∈ pre := by
+  simp only [trueDepsInc, List.mem_filter, Bool.not_eq_true'] at hd
+  obtain ⟨hd, hfresh⟩ := hd
+  unfold trueDeps at hd
+  cases hl : lookup fs o with
+  | none => rw [hl] at hd; simp at hd
+  | some f =>
+    rw [hl] at hd
+    simp only [List.mem_flatMap] at hd
+    obtain ⟨u, hu, hp⟩ := hd
+    simp only [providers, List.mem_map, List.mem_filter, Bool.and_eq_true, beq_iff_eq, bne_iff_ne] at hp
+    obtain ⟨g, ⟨hg, hgm, hgs⟩, rfl⟩ := hp
+    have hf : f ∈ fs ∧ f.stem = o := by
+      unfold lookup at hl
+      exact ⟨List.mem_of_find?_eq_some hl, by simpa using List.find?_some hl⟩
+    have hgu : g.stem = u := by
+      apply Classical.byContradiction
+      intro hne
+      have hkt : KnownStemMismatch fs = true := by
+        simp only [KnownStemMismatch, List.any_eq_true, Bool.and_eq_true, beq_iff_eq, bne_iff_ne]
+        exact ⟨f, hf.1, u, hu, g, hg, ⟨hgm, by rw [hf.2]; exact hgs⟩, hne⟩
+      rw [hk] at hkt
+      cases hkt
+    have hdeps : g.stem ∈ (cfgOfInc fs fresh walk w).deps o := by
+      simp only [cfgOfInc, codeDeps, hl, hgu]; exact hu
+    have hsrc : (cfgOfInc fs fresh walk w).src g.stem = true := by
+      simp only [cfgOfInc, hasSrc, lookup, List.find?_isSome, Bool.and_eq_true, Bool.not_eq_true']
+      exact ⟨⟨g, hg, by simp⟩, hfresh⟩
+    exact C44_order (cfgOfInc fs fresh walk w) ht s hr o g.stem hdeps hsrc pre post h
+
 /-! non-vacuity -/
+
+/-- `n2` uses the external module `n50` FIRST and then the in-tree module `n0`: submitting `n2` while `n0` is
+still running is not a step of the model (the wait does not stop at the task-less dependency) -/
+example : (replay (cfgOf [⟨0, 0, []⟩, ⟨2, 2, [50, 0]⟩] [0, 2] 2) (init (cfgOf [⟨0, 0, []⟩, ⟨2, 2, [50, 0]⟩] [0, 2] 2))
+    [.submit 0, .start 0, .submit 2]).isSome = false := by decide
+/-- incremental: `n1` is up to date, `n0` and `n2` (uses `n1` then `n0`) are rebuilt; `n2` must wait for `n0` -/
+example : (replay (cfgOfInc [⟨0, 0, []⟩, ⟨1, 1, []⟩, ⟨2, 2, [1, 0]⟩] [1] [0, 2] 2)
+    (init (cfgOfInc [⟨0, 0, []⟩, ⟨1, 1, []⟩, ⟨2, 2, [1, 0]⟩] [1] [0, 2] 2))
+    [.submit 0, .start 0, .submit 2]).isSome = false := by decide
+example : isTopo (cfgOfInc [⟨0, 0, []⟩, ⟨1, 1, []⟩, ⟨2, 2, [1, 0]⟩] [1] [0, 2] 2) = true := by decide
+
 
 /-- a three-file chain outside the family: the contract holds for the code's order and a parallel
 interleaving with two workers is accepted -/
